@@ -113,6 +113,19 @@ func c04Inputs(g *Gen, n int) [][]byte {
 			add([]byte(strings.Repeat(`{"`+term+`":`, 9) + leaf + strings.Repeat("}", 9)))
 		}
 		add([]byte(strings.Repeat(`{"type":"Create","`+term+`":[`, 8) + "{}" + strings.Repeat("]}", 8)))
+		// typed all the way down, so that every level really is a value of its type (18 levels, nothing at the bottom)
+		for _, tn := range []string{"Create", "Note", "Person", "OrderedCollection", "Question"} {
+			add([]byte(strings.Repeat(`{"type":"`+tn+`","`+term+`":`, 18) + "{}" + strings.Repeat("}", 18)))
+		}
+	}
+	// a list holding the same deeply nested value twice: de-duplication compares the two members all the way down, and
+	// that comparison must not repeat work per level (fixed defect: activities, actors and collections were compared twice)
+	for _, tn := range []string{"Create", "Person", "Collection", "OrderedCollectionPage", "Note", "Question", "Travel"} {
+		for _, term := range []string{"attachment", "object", "tag", "first"} {
+			a := strings.Repeat(`{"type":"`+tn+`","`+term+`":`, 18) + `{"type":"Note","name":"a"}` + strings.Repeat("}", 18)
+			add([]byte(`{"type":"Note","tag":[` + a + `,` + a + `]}`))
+			add([]byte(`{"type":"OrderedCollection","orderedItems":[` + a + `,"https://example.com/x",` + a + `]}`))
+		}
 	}
 	add(bytes.Repeat([]byte("["), 100000))
 	add(bytes.Repeat([]byte("{\"a\":"), 50000))
@@ -214,6 +227,28 @@ func heapAllocs() uint64 {
 	s := []metrics.Sample{{Name: "/gc/heap/allocs:bytes"}}
 	metrics.Read(s)
 	return s[0].Value.Uint64()
+}
+
+// depthOf is the deepest bracket nesting of a JSON-looking text (string contents ignored approximately: quotes toggle)
+func depthOf(in []byte) int {
+	d, max, inStr := 0, 0, false
+	for i := 0; i < len(in); i++ {
+		switch c := in[i]; {
+		case c == '\\' && inStr:
+			i++
+		case c == '"':
+			inStr = !inStr
+		case inStr:
+		case c == '{' || c == '[':
+			d++
+			if d > max {
+				max = d
+			}
+		case c == '}' || c == ']':
+			d--
+		}
+	}
+	return max
 }
 
 func minInt(a, b int) int {
@@ -479,7 +514,9 @@ func runC04(seed int64, n int, tier string, outDir string) (*Report, error) {
 				continue
 			}
 			rep.Count("outcome:value")
-			if len(in) < 5000 {
+			// (follow-ups on values nested deeper than 12 are skipped: GobEncode doubles its work per level on some
+			// properties - DESIGN.md, observations outside the properties - and the follow-up clause is about panics)
+			if len(in) < 5000 && depthOf(in) <= 12 {
 				if why := c04Followups(v); why != "" {
 					rep.Violate(Violation{Op: e.name + " then " + why, Input: fmt.Sprintf("%q", trunc(string(in), 300)), Expected: "a decoded value can be inspected, compared, re-encoded and formatted without panicking", Observed: why, Index: ii})
 				}
